@@ -86,7 +86,11 @@ type docKeySpec struct {
 }
 
 func (d docKeySpec) lib() *sdoc.PublicKey {
-	return &sdoc.PublicKey{ID: d.id, Type: d.typ, Purposes: d.purposes, JWK: jwk.JWK{JSONWebKey: gojose.JSONWebKey{Key: d.k.public()}}}
+	pk := &sdoc.PublicKey{ID: d.id, Type: d.typ, Purposes: d.purposes, JWK: jwk.JWK{JSONWebKey: gojose.JSONWebKey{Key: d.k.public()}}}
+	if len(d.id)%2 == 1 { // a caller's key value that also carries a base58 form: the JWK is what the request states
+		pk.B58Key = "GY4GunSXBPBfhLCzDL7iGmP5dR3sBDCJZkkaGK8VgYQf"
+	}
+	return pk
 }
 
 func (d docKeySpec) raw() M {
@@ -714,11 +718,11 @@ func lifecycleCase(r *rand.Rand, idx int) caseOut {
 	// ---- run through the real parser and applier; anchored form
 	parser := operationparser.New(cfg)
 	applier := operationapplier.New(cfg, parser, doccomposer.New())
-	allBuilt, allParsed, anchoredOK := true, true, true
+	allBuilt, allParsed, anchoredOK, linkedOK := true, true, true, true
 	var why []string
 	hc := &histCase{Cfg: cfg, Label: label}
-	rm := &protocol.ResolutionModel{PublishedOperations: []*operation.AnchoredOperation{{TransactionNumber: 101}, {TransactionNumber: 102}},
-		UnpublishedOperations: []*operation.AnchoredOperation{{TransactionNumber: 201}}}
+	rm := &protocol.ResolutionModel{PublishedOperations: []*operation.AnchoredOperation{{TransactionTime: 9, TransactionNumber: 102}, {TransactionTime: 3, TransactionNumber: 101}},
+		UnpublishedOperations: []*operation.AnchoredOperation{{TransactionTime: 12, TransactionNumber: 202}, {TransactionTime: 11, TransactionNumber: 201}}}
 	rmA := &protocol.ResolutionModel{PublishedOperations: rm.PublishedOperations, UnpublishedOperations: rm.UnpublishedOperations}
 	for i, st := range steps {
 		if st.refused != nil || st.bytes == nil {
@@ -733,6 +737,23 @@ func lifecycleCase(r *rand.Rand, idx int) caseOut {
 		} else if mop.UniqueSuffix != suffix || mop.ID != did {
 			allParsed = false // the request addresses another DID than the one the lifecycle is about
 			why = append(why, fmt.Sprintf("step %d (%s): request is for %s, the lifecycle's DID is %s", i, st.typ, mop.ID, did))
+		}
+		// commit-reveal: the reveal value of a built request opens the commitment of the state it is
+		// applied to (computed with the harness's own hashing, from the request bytes)
+		if st.typ != "create" {
+			var reqM map[string]interface{}
+			json.Unmarshal(st.bytes, &reqM)
+			rv, _ := reqM["revealValue"].(string)
+			want := rm.UpdateCommitment
+			if st.typ != "update" {
+				want = rm.RecoveryCommitment
+			}
+			raw, derr := b64dec(rv)
+			if derr != nil || len(raw) < 3 || raw[0] >= 0x80 || int(raw[1]) != len(raw)-2 ||
+				b64(multihash(uint64(raw[0]), digest(uint64(raw[0]), raw[2:]))) != want {
+				linkedOK = false
+				why = append(why, fmt.Sprintf("step %d (%s): the reveal value does not open the current commitment %s", i, st.typ, want))
+			}
 		}
 		hs := &histStep{Type: st.typ, Time: metas[i].t, Num: uint64(i), Ver: 0, Canon: fmt.Sprintf("ref%d", i), Bytes: st.bytes, Label: "built", Cfg: cfg, ByteLevel: true}
 		hs.V = viewFromBytes(st.typ, st.bytes)
@@ -784,8 +805,8 @@ func lifecycleCase(r *rand.Rand, idx int) caseOut {
 	rec["notes"] = why
 	rec["expected_document_after_each_step"] = expAfter
 	return caseOut{
-		Coq: fmt.Sprintf("(mk_c08 %s %s %s %s %s %s %s %s %s %s)", hc.coq(), expDocsCoq(expAfter), cObj(normJSON(expDocJSON).(map[string]interface{})), cStr(expUpd), cStr(expRec),
-			cBool(deactivate_), cJSON(normJSON(origin)), cBool(allBuilt), cBool(allParsed), cBool(anchoredOK)),
+		Coq: fmt.Sprintf("(mk_c08 %s %s %s %s %s %s %s %s %s %s %s)", hc.coq(), expDocsCoq(expAfter), cObj(normJSON(expDocJSON).(map[string]interface{})), cStr(expUpd), cStr(expRec),
+			cBool(deactivate_), cJSON(normJSON(origin)), cBool(allBuilt), cBool(allParsed), cBool(anchoredOK), cBool(linkedOK)),
 		Rec: rec, Label: label, NonTri: fmt.Sprintf("%x", h[:8]),
 	}
 }
